@@ -707,9 +707,10 @@ func (q *seqRun) tick() bool {
 		d := o.d
 		end := d.send.Add(d.T)
 		switch {
-		case !d.earlyProbed && now.After(end.Add(-300*time.Millisecond)) && now.Before(end.Add(-80*time.Millisecond)):
+		case now.After(end.Add(-300*time.Millisecond)) && now.Before(end.Add(-guardBand)):
+			// dense probes just before the deadline (a sweeper that fires early is only visible here)
+			q.readOne(o, !d.earlyProbed, false)
 			d.earlyProbed = true
-			q.readOne(o, true, false)
 		case now.After(d.lateStart().Add(5 * time.Millisecond)):
 			late[o.key] = true
 		case now.After(end) && now.Sub(d.lastPoll) > 100*time.Millisecond:
@@ -888,7 +889,7 @@ func (q *seqRun) run() {
 			q.harness("drain watchdog")
 			break
 		}
-		time.Sleep(40 * time.Millisecond)
+		time.Sleep(20 * time.Millisecond)
 	}
 	// final: every deadline ever set (fired or cancelled) is more than 5 s past
 	var last time.Time
